@@ -113,6 +113,12 @@ func execIn(t *testing.T, scn *Scenario, tape []int32, run *Run) {
 			keep := append([]byte{}, src...)
 			pm, err := websocket.NewPreparedMessage(p.MT, src)
 			if err != nil {
+				if p.MT >= 8 && len(src) > 125 {
+					// an invalid request refused at creation: sends of it are recorded as refused
+					rn.pms = append(rn.pms, nil)
+					rn.pmSrc = append(rn.pmSrc, keep)
+					continue
+				}
 				run.Harness = append(run.Harness, "NewPreparedMessage: "+err.Error())
 				return
 			}
